@@ -69,6 +69,22 @@ theorem error_or_unknown_leader_forces_refresh (s : CState) (env env' : Env)
     (cycle s env).1.fetchMetadata = true ∧ (cycle (cycle s env).1 env').2.refreshed = true :=
   Proofs.Cluster.error_or_unknown_leader_forces_refresh s env env' h
 
+/-! ### The module's main loop (`mainLoop`, run for real by the `cluster` stream's `K tick` ops) -/
+
+/-- Every offset tick runs exactly one refresh cycle, in order, and nothing else does: over ANY sequence
+    of offset, metadata and reaper ticks the cycles performed are those of `runCycles` over the offset
+    ticks, each flagged with "a metadata tick arrived since the previous offset tick" — so every theorem
+    above holds of every cycle of every run of the loop. -/
+theorem every_offset_tick_runs_one_cycle (name : String) (s : CState) (ticks : List Tick) :
+    cycleOuts (runLoop name s ticks) = runCycles s (cyclesOf false ticks) :=
+  (Proofs.Cluster.loop_is_cycles name s ticks).1
+
+/-- … one per offset tick. -/
+theorem cycles_counted (name : String) (s : CState) (ticks : List Tick) :
+    (cycleOuts (runLoop name s ticks)).length =
+      (ticks.filter fun t => match t with | .offset _ => true | _ => false).length :=
+  Proofs.Cluster.cycleOuts_length name s ticks
+
 /-! ### Non-vacuity: two topics over two brokers, a leaderless partition, one partition error -/
 
 private def env1 : Env :=
@@ -82,5 +98,7 @@ example : (cycle CState.init env1).2 =
     { refreshed := true, deletes := [], asked := [(1, [("a", 0), ("a", 1)]), (2, [("b", 0)])],
       updates := [("a", 0, 100, 3), ("b", 0, 100, 1)] } := by decide
 example : (cycle CState.init env1).1.fetchMetadata = true := by decide
+example : cycleOuts (runLoop "c0" CState.init [.reaper none none, .offset env1, .metadata, .reaper (some []) (some ["g"]), .offset env1]) =
+    runCycles CState.init [(false, env1), (true, env1)] := by decide
 
 end Burrow.Props.C11
